@@ -380,4 +380,69 @@ theorem readMarks_groups (ct : Bool) (groups : List (List Mark)) (hok : GroupsOK
   rw [groupByNote_flatten groups hok]
   exact pairAll_groups ct groups _ hts
 
+/-! ### as written (sorted by number inside the stops and inside the starts of a note) vs. as numbered -/
+
+/-- the elements of one note in the order the exporter numbers them: its stops, then its starts -/
+def toggled (g : List Mark × List Mark) : List Mark := g.1 ++ g.2
+
+/-- … and in the order it writes them: each of the two sorted by number -/
+def written (g : List Mark × List Mark) : List Mark := sortMarks numLt g.1 ++ sortMarks numLt g.2
+
+theorem mem_written {g : List Mark × List Mark} {a : Mark} : a ∈ written g ↔ a ∈ toggled g := by
+  unfold written toggled
+  simp only [List.mem_append, (sortMarks_perm numLt g.1).mem_iff, (sortMarks_perm numLt g.2).mem_iff]
+
+theorem groupsOK_written : ∀ (tg : List (List Mark × List Mark)), GroupsOK (tg.map toggled) →
+    GroupsOK (tg.map written) := by
+  intro tg
+  induction tg with
+  | nil => intro _; trivial
+  | cons g rest ih =>
+    intro h
+    obtain ⟨hne, hsame, hdiff, hrest⟩ := h
+    refine ⟨?_, ?_, ?_, ih hrest⟩
+    · intro hc
+      apply hne
+      cases ht : toggled g with
+      | nil => rfl
+      | cons x xs =>
+        have : x ∈ written g := mem_written.mpr (by rw [ht]; exact List.mem_cons_self ..)
+        rw [hc] at this; cases this
+    · intro a ha b hb
+      exact hsame a (mem_written.mp ha) b (mem_written.mp hb)
+    · intro a ha g' hg' b hb
+      cases rest with
+      | nil => simp at hg'
+      | cons g2 rest' =>
+        simp only [List.map_cons, List.head?_cons, Option.mem_def, Option.some.injEq] at hg'
+        subst hg'
+        exact hdiff a (mem_written.mp ha) (toggled g2) (by simp) b (mem_written.mp hb)
+
+theorem typeSorted_written {g : List Mark × List Mark} (h1 : ∀ a ∈ g.1, a.isStart = false)
+    (h2 : ∀ b ∈ g.2, b.isStart = true) : TypeSorted (written g) :=
+  typeSorted_append (fun a ha => h1 a ((sortMarks_perm numLt g.1).mem_iff.mp ha))
+    (fun b hb => h2 b ((sortMarks_perm numLt g.2).mem_iff.mp hb))
+
+theorem pairAll_written (ct : Bool) : ∀ (tg : List (List Mark × List Mark)) (s : PState),
+    PEq (pairAll ct s (tg.map written).flatten) (pairAll ct s (tg.map toggled).flatten) := by
+  intro tg
+  induction tg with
+  | nil => intro s; exact PEq.refl _
+  | cons g rest ih =>
+    intro s
+    simp only [List.map_cons, List.flatten_cons, written, toggled, pairAll_append]
+    refine (pairAll_congr ct _ (pairAll_congr ct _ (pairAll_sort_number ct g.1 s))).trans ?_
+    refine (pairAll_congr ct _ (pairAll_sort_number ct g.2 _)).trans ?_
+    exact ih _
+
+/-- the importer's reader on what is written = reading the elements in the order they were numbered -/
+theorem readMarks_written (ct : Bool) (tg : List (List Mark × List Mark)) (hok : GroupsOK (tg.map toggled))
+    (hkind : ∀ g ∈ tg, (∀ a ∈ g.1, a.isStart = false) ∧ (∀ b ∈ g.2, b.isStart = true)) :
+    PEq (readMarks ct (tg.map written).flatten)
+      (pairAll ct { ongoing := fun _ => none, done := [], lost := [] } (tg.map toggled).flatten) := by
+  refine (readMarks_groups ct _ (groupsOK_written tg hok) ?_).trans (pairAll_written ct tg _)
+  intro g hg
+  obtain ⟨g0, hg0, rfl⟩ := List.mem_map.mp hg
+  exact typeSorted_written (hkind g0 hg0).1 (hkind g0 hg0).2
+
 end C03.Order
